@@ -134,6 +134,8 @@ def related(proto, sent, got):
   a, b = sent[2], got[2]
   if isinstance(a, float) and (a in (float('inf'), float('-inf'))):
     return a == b
+  if isinstance(b, float) and (b != b or b in (float('inf'), float('-inf'))):
+    return False          # a finite value arrived as inf / nan
   d = abs(Fraction(a) - Fraction(b))
   ulp = Fraction(math.ulp(float(a))) if float(a) not in (float('inf'), float('-inf')) else 0
   if d <= Fraction(5, 10 ** 11) or d <= ulp:
